@@ -269,6 +269,9 @@ def kernel_codes(path="/usr/include/linux/input-event-codes.h"):
 
 def c18(tier, replay_file=None):
     prop = "C18"
+    if replay_file and json.load(open(replay_file)).get("engine") in ("E2-loop-trace", "E2-loop-walk"):
+        import e2
+        return e2.check(prop, tier, replay_file)
     res = Result(prop, tier, "other")
     try:
         exe = build_harness()
@@ -353,6 +356,10 @@ def c18(tier, replay_file=None):
         }
         res.assumptions = ["libc::input_event describes the running kernel's struct input_event", "/usr/include/linux/input-event-codes.h is the kernel's code table",
                            "a pipe preserves the bytes written (the uinput device itself is not available in the sandbox)"]
+        if not replay_file and not res.tool_errors:
+            # the same statement one level up: batches on their way through the real RealDriver::send (large ones: nine keys released at once, bursts)
+            import e2
+            res.coverage.update(e2.loop_level(res, exe, wd, tier, prop))
     except ToolError as e:
         res.tool_errors.append(str(e))
     return res.finish()
